@@ -36,6 +36,7 @@ MAP = [
     ('whole-buffer comparison ignored the element count of vectors with zero-sized elements', 'C13'),
     ('iterators of vectors without VaryingSize parameters were not default constructible', 'C11'),
     ('structured bindings of a const ContiguousElement were ill-formed', 'C20'),
+    ('iterators of std::deque and reverse iterators were taken for contiguous iterators', 'C15'),
 ]
 
 ROOT = os.path.dirname(os.path.dirname(os.path.abspath(__file__)))
